@@ -274,25 +274,7 @@ func propC05(c *Ctx, r *Report) {
 		}
 	}
 
-	// R5 revalidation
-	r.rule("C05-R5/revalidation", 1, "held batches are validated again at the executing height")
-	hold := c.fn("node.Pegnetd.ApplyTransactionBatchesInHolding")
-	for _, ex := range findCalls(hold, "node.Pegnetd.applyTransactionBatch") {
-		okk := false
-		for _, v := range findCalls(hold, "fat2.TransactionBatch.Validate") {
-			ev, _ := errValueOf(v)
-			if ev == nil {
-				continue
-			}
-			sameBatch := sliceHas(ex.Common().Args[2], func(x ssa.Value) bool { return x == v.Common().Args[0] }) || v.Common().Args[0] == ex.Common().Args[2] || sameExpr(v.Common().Args[0], ex.Common().Args[2])
-			for _, t := range nilTestsOf(c, ev) {
-				if nilEdgeDom(t, ex.Block()) && sameBatch && c.isExecHeight(v.Common().Args[1]) {
-					okk = true
-				}
-			}
-		}
-		r.check(okk, "C05-R5/revalidation", "applyTransactionBatch in the holding executor", c.ipos(ex), "dominated by the nil edge of txBatch.Validate(int32(currentHeight))", "a held batch is executed without being validated again at the executing height (its timestamp salt may have left the validity window, or the accepted key types changed)")
-	}
+	ruleRevalidation(c, r, "C05-R5/revalidation")
 
 	ruleValidDataTable(c, r, "C05-R6/valid-data")
 
@@ -465,4 +447,41 @@ func ruleValidDataTable(c *Ctx, r *Report, rule string) {
 		r.check(hasNil == cs.ok, rule, cs.name, c.pos(vd.Pos()), map[bool]string{true: "accepted", false: "rejected"}[cs.ok], fmt.Sprintf("results %v, expected %s", errs, map[bool]string{true: "accepted", false: "rejected"}[cs.ok]))
 	}
 	acc.report(c, r, rule, vd)
+}
+
+// ruleRevalidation: in the holding executor a batch is executed only behind the nil edge of Validate(executing height)
+// on the same batch.
+func ruleRevalidation(c *Ctx, r *Report, rule string) {
+	r.rule(rule, 1, "held batches are validated again at the executing height")
+	hold := c.fn("node.Pegnetd.ApplyTransactionBatchesInHolding")
+	spec := &guardSpec{
+		callee: "fat2.TransactionBatch.Validate",
+		good: func(c *Ctx, g *ssa.Call) []*ssa.BasicBlock {
+			var out []*ssa.BasicBlock
+			if ev, _ := errValueOf(g); ev != nil {
+				for _, t := range nilTestsOf(c, ev) {
+					if t.N != t.S {
+						out = append(out, t.N)
+					}
+				}
+			}
+			return out
+		},
+		accept: func(c *Ctx, g *ssa.Call, subject ssa.Value) bool {
+			if subject == nil || !c.isExecHeight(g.Call.Args[1]) {
+				return false
+			}
+			v := g.Call.Args[0]
+			return v == subject || sameExpr(v, subject) || sliceHas(subject, func(x ssa.Value) bool { return x == v })
+		},
+	}
+	n := 0
+	for _, ex := range c.findCallsFam(hold, "node.Pegnetd.applyTransactionBatch") {
+		n++
+		okk := c.guardedByOutcome(ex, ex.Common().Args[2], spec, 0)
+		r.check(okk, rule, "applyTransactionBatch in the holding executor", c.ipos(ex), "dominated by the nil edge of txBatch.Validate(int32(currentHeight))", "a held batch is executed without being validated again at the executing height (its timestamp salt may have left the validity window, or the accepted key types changed)")
+	}
+	if n == 0 {
+		r.viol(rule, "applyTransactionBatch call in the holding executor", c.pos(hold.Pos()), "not found")
+	}
 }
